@@ -161,7 +161,7 @@ ASSUMPTIONS = ["timeouts are 0 or >= 128*eps; a delegate never completes, or com
 BOUNDS_TEXT = {"quick": "1 future (executor and f_timeout forms, P<=1); 2 futures from 2 submitter threads with symbolic instants (P=0)",
                "thorough": "1 future P<=2; 2 futures P<=1; 3 futures P=0; adversarial clock for never-early"}
 MUST_REACH = {"*": ["not-done-at-deadline", "completed-before-deadline", "completed-at-deadline"]}
-BUDGET = {"quick": 150.0, "thorough": 1500.0}
+BUDGET = {"quick": 150.0, "thorough": 600.0}
 
 
 def plan(tier, seed):
@@ -169,7 +169,7 @@ def plan(tier, seed):
     if tier == "quick":
         return [dict(scenario=T, params=dict(n=1, form="executor"), bounds=dict(P=1)),
                 dict(scenario=T, params=dict(n=1, form="f_timeout"), bounds=dict(P=0)),
-                dict(scenario=T, params=dict(n=2, form="executor", submitters=2, regimes=[0, 1], percall_choice=False), bounds=dict(P=0))]
+                dict(scenario=T, params=dict(n=2, form="executor", submitters=1, regimes=[0, 1, 3], percall_choice=False), bounds=dict(P=0))]
     return [dict(scenario=T, params=dict(n=1, form="executor"), bounds=dict(P=2)),
             dict(scenario=T, params=dict(n=1, form="f_timeout"), bounds=dict(P=2)),
             dict(scenario=T, params=dict(n=1, form="executor", regimes=[0, 1, 2]), bounds=dict(P=1, adversarial=True)),
